@@ -35,3 +35,135 @@ package claim
 //@ site (*claim.Unstructured).SetConditions(_, $cs...)
 //@   assert [C05:claim-ready-only-if-xr-ready] forall i :: 0 <= i && i < len($cs) && $cs[i].Type == "Ready" && $cs[i].Status == "True" && $cs[i].Reason == "Available"
 //@        ==> resource.IsConditionTrue($xr.GetCondition(xpv1.TypeReady))
+
+// C07: the key filter used in both directions of the claim <-> XR sync. The result has exactly
+// the keys of `in` that are not listed, with the values of `in`; `in` itself is not modified.
+
+//@ func claim.withoutKeys
+//@ frame fresh-only
+//@ props C07
+//@ loop range keys
+//@   invariant [C07:filter-built] forall k:Str :: filter[k] <==> (exists j :: 0 <= j && j < done && keys[j] == k)
+//@ loop range in
+//@   invariant [C07:filter-kept] forall k:Str :: filter[k] <==> (exists j :: 0 <= j && j < len(keys) && keys[j] == k)
+//@   invariant [C07:out-so-far] forall k:Str :: (k in out) <==> (k in visited && !filter[k])
+//@   invariant [C07:out-values] forall k:Str :: k in out ==> out[k] == in[k]
+//@   invariant [C07:visited-in] forall k:Str :: k in visited ==> k in in
+//@   invariant [C07:in-untouched] out != in && forall k:Str :: ((k in in) <==> old(k in in)) && in[k] == old(in[k])
+//@ ensures [C07:keys-exact] forall k:Str :: (k in result) <==> (k in in && !(exists j :: 0 <= j && j < len(keys) && keys[j] == k))
+//@ ensures [C07:values-kept] forall k:Str :: k in result ==> result[k] == in[k]
+//@ ensures [C07:source-unmodified] forall k:Str :: ((k in in) <==> old(k in in)) && in[k] == old(in[k])
+
+// C07: labels and annotations under *.kubernetes.io / *.k8s.io never travel from claim to XR;
+// every other entry travels unchanged.
+
+//@ macro RESERVED(k) = strings.HasSuffix(strings.Split(k, "/")[0], "kubernetes.io") || strings.HasSuffix(strings.Split(k, "/")[0], "k8s.io")
+
+//@ func claim.withoutReservedK8sEntries
+//@ frame writes a
+//@ props C07
+//@ loop range a
+//@   invariant [C07:reserved-visited-removed] forall k:Str :: (k in visited && RESERVED(k)) ==> !(k in a)
+//@   invariant [C07:unreserved-kept] forall k:Str :: !RESERVED(k) ==> (((k in a) <==> old(k in a)) && a[k] == old(a[k]))
+//@   invariant [C07:nothing-added] forall k:Str :: k in a ==> old(k in a)
+//@ ensures [C07:no-reserved-left] forall k:Str :: k in result ==> !RESERVED(k)
+//@ ensures [C07:unreserved-survive] forall k:Str :: !RESERVED(k) ==> (((k in result) <==> old(k in a)) && result[k] == old(a[k]))
+
+// The server-side-apply syncer.
+//  C06  the XR is applied only after the claim's reference to exactly that XR was persisted;
+//       an existing reference is reused; a name is generated only for a nameless XR.
+//  C07  the keys filtered out of the claim's spec on its way to the XR are exactly the
+//       claim-only machinery fields (never a user field, never a composition selection field),
+//       and the keys filtered out of the XR's status on its way back are exactly the XR's
+//       status machinery.
+
+//@ macro CLAIMSPECKEY(k) = k == "compositionRef" || k == "compositionSelector" || k == "compositionRevisionRef" || k == "compositionRevisionSelector" || k == "compositionUpdatePolicy" || k == "compositeDeletePolicy" || k == "resourceRef" || k == "publishConnectionDetailsTo" || k == "writeConnectionSecretToRef"
+//@ macro PROPAGATED(k) = k == "compositionRef" || k == "compositionSelector" || k == "compositionUpdatePolicy" || k == "compositionRevisionSelector"
+
+//@ func (*claim.ServerSideCompositeSyncer).Sync
+//@ props C06 C07
+//@ globals internal/xcrd
+//@ ghost claimBound bool = false
+//@ ghost xrApplied bool = false
+//@ let $patch = result composite.New
+//@ loop range xcrd.PropagateSpecProps
+//@   invariant [C07:selection-fields-unfiltered] forall k:Str :: (k in wellKnownClaimFields) <==>
+//@        (CLAIMSPECKEY(k) && !(exists j :: 0 <= j && j < done && xcrd.PropagateSpecProps[j] == k))
+//@ let $fields = result xcrd.GetPropFields
+//@ site xcrd.GetPropFields($props) as filter-spec
+//@   where !xrApplied
+//@   assert [C07:claim-only-machinery-filtered] ("resourceRef" in $props) && ("writeConnectionSecretToRef" in $props)
+//@        && ("publishConnectionDetailsTo" in $props) && ("compositeDeletePolicy" in $props)
+//@   assert [C07:selection-propagated] forall k:Str :: k in $props ==> !PROPAGATED(k)
+//@   assert [C07:no-user-field-filtered] forall k:Str :: k in $props ==> CLAIMSPECKEY(k)
+//@   assert [C07:revision-ref-by-policy] ("compositionRevisionRef" in $props) <==>
+//@        !(xr.GetCompositionUpdatePolicy() != nil && *xr.GetCompositionUpdatePolicy() == "Manual")
+//@ site xcrd.GetPropFields($props) as filter-status
+//@   where xrApplied
+//@   assert [C07:xr-status-machinery-filtered] ("conditions" in $props) && ("connectionDetails" in $props) && ("claimConditionTypes" in $props)
+//@   assert [C07:no-user-status-filtered] forall k:Str :: k in $props ==> (k == "conditions" || k == "connectionDetails" || k == "claimConditionTypes")
+//@ site claim.withoutKeys($in, $keys...)
+//@   assert [C07:filter-is-the-computed-key-set] $keys == $fields
+//@ site (names.NameGenerator).GenerateName(_, _, $o)
+//@   assert [C06:generate-only-when-nameless] $o == $patch && $patch.GetName() == ""
+//@ site (client.Writer).Update(_, _, $o)
+//@   assert [C06:claim-references-the-xr] $o == cm && cm.GetResourceReference() != nil && cm.GetResourceReference().Name == $patch.GetName()
+//@   update claimBound = err == nil
+//@ site (client.Writer).Patch(_, _, $o, _, $opts...)
+//@   assert [C06:xr-applied-after-binding] $o == $patch && claimBound
+//@   assert [C06:bound-to-this-xr] cm.GetResourceReference() != nil && cm.GetResourceReference().Name == $patch.GetName()
+//@   assert [C06:existing-reference-reused] (old(cm.GetResourceReference()) != nil && old(cm.GetResourceReference().Name) != "") ==>
+//@        $patch.GetName() == old(cm.GetResourceReference().Name)
+//@   update xrApplied = true
+
+// The client-side-apply syncer: same obligations as the server-side one, plus the XR -> claim
+// spec direction, where every XR-only machinery field is filtered out.
+
+//@ macro XRSPECKEY(k) = k == "compositionRef" || k == "compositionSelector" || k == "compositionRevisionRef" || k == "compositionRevisionSelector" || k == "compositionUpdatePolicy" || k == "claimRef" || k == "resourceRefs" || k == "publishConnectionDetailsTo" || k == "writeConnectionSecretToRef"
+
+//@ func (*claim.ClientSideCompositeSyncer).Sync
+//@ props C06 C07
+//@ globals internal/xcrd
+//@ ghost claimBound bool = false
+//@ ghost xrApplied bool = false
+//@ ghost statusUpdated bool = false
+//@ let $fields = result xcrd.GetPropFields
+//@ loop range xcrd.PropagateSpecProps
+//@   invariant [C07:selection-fields-unfiltered] forall k:Str :: (k in wellKnownClaimFields) <==>
+//@        (CLAIMSPECKEY(k) && !(exists j :: 0 <= j && j < done && xcrd.PropagateSpecProps[j] == k))
+//@ loop range xcrd.PropagateSpecProps #1
+//@   invariant [C07:xr-selection-fields-unfiltered] forall k:Str :: (k in wellKnownXRFields) <==>
+//@        (XRSPECKEY(k) && !(exists j :: 0 <= j && j < done && xcrd.PropagateSpecProps[j] == k))
+//@ site xcrd.GetPropFields($props) as filter-spec
+//@   where !xrApplied
+//@   assert [C07:claim-only-machinery-filtered] ("resourceRef" in $props) && ("writeConnectionSecretToRef" in $props)
+//@        && ("publishConnectionDetailsTo" in $props) && ("compositeDeletePolicy" in $props)
+//@   assert [C07:selection-propagated] forall k:Str :: k in $props ==> !PROPAGATED(k)
+//@   assert [C07:no-user-field-filtered] forall k:Str :: k in $props ==> CLAIMSPECKEY(k)
+//@   assert [C07:revision-ref-by-policy] ("compositionRevisionRef" in $props) <==>
+//@        !(xr.GetCompositionUpdatePolicy() != nil && *xr.GetCompositionUpdatePolicy() == "Manual")
+//@ site xcrd.GetPropFields($props) as filter-status
+//@   where xrApplied && !statusUpdated
+//@   assert [C07:xr-status-machinery-filtered] ("conditions" in $props) && ("connectionDetails" in $props) && ("claimConditionTypes" in $props)
+//@   assert [C07:no-user-status-filtered] forall k:Str :: k in $props ==> (k == "conditions" || k == "connectionDetails" || k == "claimConditionTypes")
+//@ site xcrd.GetPropFields($props) as filter-xr-spec
+//@   where statusUpdated
+//@   assert [C07:xr-only-machinery-filtered] ("claimRef" in $props) && ("resourceRefs" in $props)
+//@        && ("publishConnectionDetailsTo" in $props) && ("writeConnectionSecretToRef" in $props) && ("compositionRevisionRef" in $props)
+//@   assert [C07:no-user-xr-field-filtered] forall k:Str :: k in $props ==> (XRSPECKEY(k) && !PROPAGATED(k))
+//@ site claim.withoutKeys($in, $keys...)
+//@   assert [C07:filter-is-the-computed-key-set] $keys == $fields
+//@ site claim.withSrcFilter($keys...)
+//@   assert [C07:merge-filter-is-the-computed-key-set] $keys == $fields
+//@ site (names.NameGenerator).GenerateName(_, _, $o)
+//@   assert [C06:generate-only-for-new-xr] $o == xr && !meta.WasCreated(xr)
+//@ site (client.Writer).Update(_, _, $o) as Update-bind
+//@   where !xrApplied
+//@   assert [C06:claim-references-the-xr] $o == cm && cm.GetResourceReference() != nil && cm.GetResourceReference().Name == xr.GetName()
+//@   update claimBound = err == nil
+//@ site (resource.Applicator).Apply(_, _, $o, $opts...)
+//@   assert [C06:xr-applied-after-binding] $o == xr && (claimBound || cmp.Equal(existing, proposed))
+//@   assert [C06:existing-reference-reused] (old(cm.GetResourceReference()) != nil) ==> xr.GetName() == old(cm.GetResourceReference().Name)
+//@   update xrApplied = true
+//@ site (client.SubResourceWriter).Update(_, _, $o)
+//@   update statusUpdated = true
